@@ -280,8 +280,14 @@ func c06Nesting(c *work.Ctx) {
 
 func c06Reader(c *work.Ctx) {
 	docs := universe.Docs(2)
-	docs = append(docs, `-12.5e+3`, `"abé😀\n"`, `nul`, `tru`, `"abc`, `[`, `{"a":`, `"\u12`, `"\`, `{"a"`, `[1,`)
+	docs = append(docs, `-12.5e+3`, `"abé😀\n"`, `nul`, `tru`, `"abc`, `[`, `{"a":`, `"\u12`, `"\`, `{"a"`, `[1,`,
+		// multi-byte characters at several offsets (the stream string scanner looks ahead for the rest of a sequence)
+		`{"a":"héllo","b":"日本"}`, `["é","x😀y"]`, `"日本語"`)
 	types := c06DestTypes()[:10]
+	types = append(types, reflect.TypeOf(""), reflect.TypeOf([]string(nil)), reflect.TypeOf(struct {
+		A string `json:"a"`
+		B string `json:"b"`
+	}{}))
 	for _, doc := range docs {
 		b := []byte(doc)
 		if !c.BeginS("reader " + doc) {
@@ -294,19 +300,25 @@ func c06Reader(c *work.Ctx) {
 					if fail >= 0 && fail != k && c.Quick() {
 						continue // quick: the failure coincides with the cut; thorough: every pair
 					}
-					r := &chunkReader{data: b, zeroAt: -1, failAt: fail}
-					if k > 0 && k < len(b) {
-						r.cuts = []int{k}
+					// the reader's error arrives alone (n == 0) or together with the last bytes it delivers (n > 0)
+					for _, with := range []bool{false, true} {
+						if with && fail < 0 {
+							continue
+						}
+						r := &chunkReader{data: b, zeroAt: -1, failAt: fail, failWith: with}
+						if k > 0 && k < len(b) {
+							r.cuts = []int{k}
+						}
+						c06Call(c, "Decoder (cut/failing reader) into "+universe.Desc(t, 3), b, func() {
+							d := json.NewDecoder(r)
+							d.More()
+							d.Decode(reflect.New(t).Interface())
+							d.Buffered()
+							d.More()
+							d.Token()
+						})
+						c.Count("reader_runs", 1)
 					}
-					c06Call(c, "Decoder (cut/failing reader) into "+universe.Desc(t, 3), b, func() {
-						d := json.NewDecoder(r)
-						d.More()
-						d.Decode(reflect.New(t).Interface())
-						d.Buffered()
-						d.More()
-						d.Token()
-					})
-					c.Count("reader_runs", 1)
 				}
 			}
 		}
